@@ -2,17 +2,19 @@
    exactly one action (SeqSpec.v) -> exactly the events of the table (EventSpec.v),
    appended to the callback log.  Also the non-vacuity examples. *)
 Require Import Tac ListN Utf8 Attrs Cell Row Grid Screen Vte Perform Parser Term.
-Require Import Utf8Lemmas VteInv VteChunk ParseSer ScreenInv EventSpec SeqSpec.
+Require Import Utf8Lemmas VteInv VteChunk ParseSer ScreenInv EventSpec SeqSpec Pend Chunking.
 Open Scope N_scope.
 
 (* a chunk of bytes that parses to exactly one action *)
+(* [delivered p bs] (Chunking.v): what process hands to vte, pend p ++ bs without its incomplete
+   utf-8 tail; it is bs itself when pend p = [] and bs ends in a complete character *)
 Theorem process_one_action : forall p bs v' a q,
-  advance (vt p) bs = (v', [a]) -> process p bs = Ok q ->
+  advance (vt p) (delivered p bs) = (v', [a]) -> process p bs = Ok q ->
   vt q = v' /\ resizing q = resizing p /\
   log q = log p ++ events_of (resizing p) (scr p) a /\
   perform (resizing p) (scr p) a = Ok (scr q, events_of (resizing p) (scr p) a).
 Proof.
-  intros p bs v' a q A H. unfold process in H. rewrite A in H.
+  intros p bs v' a q A H. rewrite process_unfold in H. rewrite A in H.
   cbn [perform_all] in H.
   destruct (perform (resizing p) (scr p) a) as [[s1 e]|k] eqn:E; cbn [bind app] in H; [|discriminate].
   inv H. cbn [vt resizing log scr]. pose proof (C18_exact _ _ _ _ _ E) as ->. auto.
@@ -20,14 +22,14 @@ Qed.
 
 (* two actions (OSC terminated by ESC \) *)
 Theorem process_two_actions : forall p bs v' a1 a2 q,
-  advance (vt p) bs = (v', [a1; a2]) -> process p bs = Ok q ->
+  advance (vt p) (delivered p bs) = (v', [a1; a2]) -> process p bs = Ok q ->
   exists s1,
     perform (resizing p) (scr p) a1 = Ok (s1, events_of (resizing p) (scr p) a1) /\
     perform (resizing p) s1 a2 = Ok (scr q, events_of (resizing p) s1 a2) /\
     vt q = v' /\
     log q = log p ++ events_of (resizing p) (scr p) a1 ++ events_of (resizing p) s1 a2.
 Proof.
-  intros p bs v' a1 a2 q A H. unfold process in H. rewrite A in H.
+  intros p bs v' a1 a2 q A H. rewrite process_unfold in H. rewrite A in H.
   cbn [perform_all] in H.
   destruct (perform (resizing p) (scr p) a1) as [[s1 e1]|k] eqn:E1; cbn [bind app] in H; [|discriminate].
   destruct (perform (resizing p) s1 a2) as [[s2 e2]|k] eqn:E2; cbn [bind app] in H; [|discriminate].
@@ -36,48 +38,82 @@ Proof.
   exists s1. auto.
 Qed.
 
+(* the sequences below end in an ASCII byte: nothing of them is held back *)
+Lemma csi_bytes_tail mk G ins f : f < 128 -> incomplete_tail (csi_bytes mk G ins f) = 0.
+Proof.
+  intros H. apply ends_ascii_tail. unfold csi_bytes. do 2 apply ends_ascii_cons.
+  do 3 apply ends_ascii_app. now apply ends_ascii_one.
+Qed.
+Lemma esc_bytes_tail ins f : f < 128 -> incomplete_tail (esc_bytes ins f) = 0.
+Proof.
+  intros H. apply ends_ascii_tail. unfold esc_bytes. apply ends_ascii_cons, ends_ascii_app. now apply ends_ascii_one.
+Qed.
+Lemma osc_bytes_bel_tail fs : incomplete_tail (osc_bytes_bel fs) = 0.
+Proof.
+  apply ends_ascii_tail. unfold osc_bytes_bel. do 2 apply ends_ascii_cons. apply ends_ascii_app.
+  apply ends_ascii_one. lia.
+Qed.
+Lemma osc_bytes_st_tail fs : incomplete_tail (osc_bytes_st fs) = 0.
+Proof.
+  apply ends_ascii_tail. unfold osc_bytes_st. do 2 apply ends_ascii_cons. apply ends_ascii_app.
+  apply ends_ascii_cons, ends_ascii_one. lia.
+Qed.
+Lemma utf8_encode_tail c : is_scalar c = true -> incomplete_tail (utf8_encode c) = 0.
+Proof.
+  intros Hs. apply (incomplete_tail_char _ c).
+  pose proof (decode1_encode c [] Hs) as D. rewrite app_nil_r in D. now rewrite utf8_encode_len.
+Qed.
+
 (* ---- CSI ---- *)
 Theorem C18_csi_once : forall p mk G ins f q,
+  pend p = [] ->
   ground (vt p) -> csi_ok mk G ins f ->
   process p (csi_bytes mk G ins f) = Ok q ->
   ground (vt q) /\
   log q = log p ++ events_of (resizing p) (scr p) (csi_action mk G ins f).
 Proof.
-  intros p mk G ins f q Hg Hok H.
+  intros p mk G ins f q Hp Hg Hok H.
   destruct (advance_csi_general (vt p) mk G ins f Hg Hok) as (v' & Gv & A).
+  rewrite <- (delivered_clean p _ Hp (csi_bytes_tail mk G ins f ltac:(destruct Hok; lia))) in A.
   destruct (process_one_action p _ v' _ q A H) as (E1 & _ & E3 & _). subst v'. auto.
 Qed.
 
 (* ---- ESC ---- *)
 Theorem C18_esc_once : forall p ins f q,
+  pend p = [] ->
   ground (vt p) -> esc_ok ins f ->
   process p (esc_bytes ins f) = Ok q ->
   ground (vt q) /\
   log q = log p ++ events_of (resizing p) (scr p) (AEsc ins false f).
 Proof.
-  intros p ins f q Hg Hok H.
+  intros p ins f q Hp Hg Hok H.
   destruct (advance_esc_general (vt p) ins f Hg Hok) as (A & Gv).
+  rewrite <- (delivered_clean p _ Hp (esc_bytes_tail ins f ltac:(destruct Hok; lia))) in A.
   destruct (process_one_action p _ _ _ q A H) as (E1 & _ & E3 & _). rewrite E1. auto.
 Qed.
 
 (* ---- OSC, BEL-terminated: reported exactly once, screen unchanged ---- *)
 Theorem C18_osc_bel_once : forall p fs,
+  pend p = [] ->
   ground (vt p) -> osc_ok fs ->
   process p (osc_bytes_bel fs) =
-  Ok (mkParser p_init (scr p) (log p ++ osc_events fs) (resizing p)).
+  Ok (mkParser p_init (scr p) (log p ++ osc_events fs) (resizing p) []).
 Proof.
-  intros p fs Hg Hok. unfold process. rewrite (advance_osc_bel (vt p) fs Hg Hok).
+  intros p fs Hp Hg Hok. rewrite (process_clean p _ Hp (osc_bytes_bel_tail fs)).
+  rewrite (advance_osc_bel (vt p) fs Hg Hok).
   cbn [perform_all perform bind]. rewrite do_osc_events. reflexivity.
 Qed.
 
 (* ---- OSC, ST-terminated: the OSC is reported exactly once, and the terminator
    ESC \ (dispatched by vte as a separate escape sequence) is silent since the K18 repair ---- *)
 Theorem C18_osc_st_once : forall p fs,
+  pend p = [] ->
   ground (vt p) -> osc_ok fs ->
   process p (osc_bytes_st fs) =
-  Ok (mkParser p_init (scr p) (log p ++ osc_events fs) (resizing p)).
+  Ok (mkParser p_init (scr p) (log p ++ osc_events fs) (resizing p) []).
 Proof.
-  intros p fs Hg Hok. unfold process. rewrite (advance_osc_st (vt p) fs Hg Hok).
+  intros p fs Hp Hg Hok. rewrite (process_clean p _ Hp (osc_bytes_st_tail fs)).
+  rewrite (advance_osc_st (vt p) fs Hg Hok).
   cbn [perform_all perform bind]. rewrite do_osc_events. cbn [bind app].
   change (do_esc (scr p) [] 92) with (Ok (scr p, @nil event)). cbn [bind].
   rewrite app_nil_r. reflexivity.
@@ -85,12 +121,14 @@ Qed.
 
 (* ---- single characters ---- *)
 Theorem C18_char_once : forall p c q,
+  pend p = [] ->
   ground (vt p) -> is_scalar c = true -> c <> 27 ->
   process p (utf8_encode c) = Ok q ->
   vt q = vt p /\ log q = log p ++ events_of (resizing p) (scr p) (ground_action c).
 Proof.
-  intros p c q Hg Hs H27 H.
+  intros p c q Hp Hg Hs H27 H.
   pose proof (advance_one_char (vt p) c Hg Hs H27) as A.
+  rewrite <- (delivered_clean p _ Hp (utf8_encode_tail c Hs)) in A.
   destruct (process_one_action p _ _ _ q A H) as (E1 & _ & E3 & _). auto.
 Qed.
 
@@ -119,7 +157,7 @@ Qed.
 (* ---- a reported sequence changes nothing on the screen (recording policy) ---- *)
 Theorem C18_reported_sequence_inert : forall p bs v' a q,
   resizing p = false ->
-  advance (vt p) bs = (v', [a]) -> reported a = true -> process p bs = Ok q ->
+  advance (vt p) (delivered p bs) = (v', [a]) -> reported a = true -> process p bs = Ok q ->
   scr q = scr p /\ log q = log p ++ events_of false (scr p) a /\ events_of false (scr p) a <> [].
 Proof.
   intros p bs v' a q Hz A R H.
@@ -135,7 +173,7 @@ Qed.
 Definition p0 : parser :=
   match parser_new 24 80 10 false with Ok p => p | Panic _ => mkParser p_init (mkScreen
     (mkGrid 0 0 0 0 0 0 [] 0 0 false false [] 0 0) (mkGrid 0 0 0 0 0 0 [] 0 0 false false [] 0 0)
-    dflt dflt false false false false false MNone EDefault) [] false end.
+    dflt dflt false false false false false MNone EDefault) [] false [] end.
 
 Definition log_of (r : res parser) : list event := match r with Ok q => log q | Panic _ => [] end.
 Definition scr_same (r : res parser) (p : parser) : Prop := match r with Ok q => scr q = scr p | Panic _ => False end.
